@@ -293,3 +293,68 @@ def pick_id(rng, se):
     if have and rng.random() < 0.4:
         return rng.choice(have)
     return rand_id(rng, set())
+
+
+def self_referential(rng, ver):
+    """[(header, key, mask, note)]: headers whose text contains, a second time, the four digits of their own length field - the
+    header's own length (what `str` prints) or the key block's total length (what `wrap` prints): in the fixed fields
+    (key usage + algorithm + mode of use), in block data, in a block id + length, and as <count><reserved> when a header
+    of N optional blocks is exactly N*100 characters long. A serialiser that patches the length in by text search hits them."""
+    bs = VERS[ver][0]
+    out = []
+
+    def mk(ku, alg, mou, blocks):
+        h = tr31.Header(ver, ku, alg, mou, "00", "N")
+        for k, v in blocks:
+            h.blocks[k] = v
+        return h
+
+    def lengths(h, key, mask):
+        try:
+            return len(str(h)), len(tr31.wrap(b"\x11" * 16, h, key, mask))
+        except Exception:  # noqa: BLE001
+            return None, None
+    for key, mask in ((rb(rng, 16), None), (rb(rng, 5), 0), (rb(rng, 24), 40)):
+        # fixed fields: the length digits spelled by key usage + algorithm + mode of use
+        h0 = mk("P0", "T", "E", [])
+        hl, tl = lengths(h0, key, mask)
+        for L in (hl, tl):
+            if L:
+                d = str(L).zfill(4)
+                out.append((mk(d[:2], d[2], d[3], []), key, mask, f"fixed fields spell {d}"))
+        # block data holding the digits (data length fixed, so the lengths do not move)
+        for dl in (4, 7, 12):
+            h1 = mk("P0", "T", "E", [("KS", "x" * dl)])
+            hl, tl = lengths(h1, key, mask)
+            for L in (hl, tl):
+                if L:
+                    d = str(L).zfill(4)
+                    data = ("x" * dl)[: (dl - 4) // 2] + d + ("x" * dl)[(dl - 4) // 2 + 4:]
+                    out.append((mk("P0", "T", "E", [("KS", data)]), key, mask, f"block data holds {d}"))
+        # block id + short length field spelling the digits: id = first two digits, data length so that the length byte matches
+        h2 = mk("P0", "T", "E", [("00", "y" * 4)])
+        hl, tl = lengths(h2, key, mask)
+        for L in (hl, tl):
+            if L:
+                d = str(L).zfill(4)
+                ln = int(d[2:], 16) - 4 if all(ch in "0123456789" for ch in d[2:]) else -1
+                if 0 <= ln <= 60:
+                    cand = mk("P0", "T", "E", [(d[:2], "z" * ln)])
+                    if str(len(str(cand))).zfill(4) == d or lengths(cand, key, mask)[1] == L:
+                        out.append((cand, key, mask, f"block id and length spell {d}"))
+    # N blocks in a header of exactly N*100 characters: "<NN><00>" = count + reserved repeats the length digits
+    for N in (1, 2, 4):
+        target = N * 100
+        if target % bs:
+            continue
+        per = (target - 16) // N - 4
+        rest = (target - 16) - N * (per + 4)
+        blocks = [(f"{j:02d}".replace("0", "A", 1) if False else f"K{j}", "w" * (per + (rest if j == 0 else 0))) for j in range(N)]
+        h = mk("P0", "T", "E", blocks)
+        try:
+            if len(str(h)) == target:
+                out.append((h, rb(rng, 16), None, f"{N} blocks in {target} characters"))
+                out.append((h, rb(rng, 16), 40, f"{N} blocks in {target} characters"))
+        except Exception:  # noqa: BLE001
+            pass
+    return out
